@@ -1,8 +1,86 @@
-(** C14 — property theorems only; each closed by [exact] of a lemma proved elsewhere. *)
-From Coq Require Import ZArith List.
-From VB Require Import Rewards.BigDecDefs Rewards.CalcDefs Rewards.SpecDefs Rewards.StructProofs.
+(** C14 — property theorems only; each closed by [exact] of a lemma proved elsewhere.
+    [w] = the wrap function of ArithUint256 ([wrap256] in the library); side
+    conditions are the decidable predicates of Rewards/BoundsDefs.v. *)
+From Coq Require Import ZArith List Permutation.
+From VB Require Import Rewards.BigDecDefs Rewards.CalcDefs Rewards.SpecDefs Rewards.BoundsDefs
+     Rewards.StructProofs Rewards.MapProofs Rewards.FinalProofs.
 Import ListNotations.
 Local Open Scope Z_scope.
+
+(** no 256-bit wrap under the stated bounds: the library's arithmetic and exact
+    integer arithmetic compute the same payouts / block reward *)
+Theorem C14_u256_refines_Z :
+  forall p b prevs, params_okb p = true -> block_okb b = true -> chain_okb prevs = true ->
+    calc_payouts wrap256 p b prevs = calc_payouts (fun z => z) p b prevs.
+Proof. exact u256_refines_Z. Qed.
+Print Assumptions C14_u256_refines_Z.
+
+Theorem C14_u256_refines_Z_block_reward :
+  forall p h s d, params_okb p = true -> 0 <= h < 2 ^ 31 -> 0 <= s < 2 ^ 128 -> 0 <= d ->
+    block_reward wrap256 p h s d = block_reward (fun z => z) p h s d.
+Proof. exact u256_refines_Z_block_reward. Qed.
+Print Assumptions C14_u256_refines_Z_block_reward.
+
+(** calculateBlockReward equals the by-regime specification *)
+Theorem C14_block_reward_eq_spec :
+  forall p h s d, params_okb p = true -> 0 <= h < 2 ^ 31 -> 0 <= s < 2 ^ 128 -> 0 <= d ->
+    block_reward wrap256 p h s d = Ok (spec_block_reward p h s d).
+Proof. exact block_reward_eq_spec. Qed.
+Print Assumptions C14_block_reward_eq_spec.
+
+(** getPopPayout pays exactly the specification amounts to exactly the payout
+    infos with an endorsement on the best VBK chain, for the block delay-1 behind
+    the tip; nothing when the chain is too short *)
+Theorem C14_reward_eq_spec :
+  forall p tip rest,
+    params_okb p = true -> chain_okb (tip :: rest) = true ->
+    Z.of_nat (length (tip :: rest)) <= b_height tip + 1 -> 1 <= p_settle p ->
+    match spec_endorsed p (tip :: rest) with
+    | None => get_pop_payout wrap256 p (tip :: rest) = Ok []
+    | Some (e, prevs) =>
+      b_height e + p_settle p - 1 <= b_height tip ->
+      exists m, get_pop_payout wrap256 p (tip :: rest) = Ok m /\
+        forall pid, map_get pid m = match on_pid pid e with [] => None | _ => Some (spec_paid p e prevs pid) end
+    end.
+Proof. exact reward_eq_spec. Qed.
+Print Assumptions C14_reward_eq_spec.
+
+(** amounts of equal payout infos are summed (entry = sum of the shares of all
+    counted endorsements with that payout info; no entry otherwise) *)
+Theorem C14_same_payout_info_summed :
+  forall p b prevs, params_okb p = true -> block_okb b = true -> chain_okb prevs = true ->
+    exists m, calc_payouts wrap256 p b prevs = Ok m /\
+      forall pid, map_get pid m = match on_pid pid b with [] => None | _ => Some (spec_paid p b prevs pid) end.
+Proof. exact calc_payouts_eq_spec. Qed.
+Print Assumptions C14_same_payout_info_summed.
+
+(** ... independently of the order of the endorsements *)
+Theorem C14_payout_order_independent :
+  forall p b b' prevs,
+    params_okb p = true -> block_okb b = true -> block_okb b' = true -> chain_okb prevs = true ->
+    b_height b = b_height b' -> Permutation (b_ends b) (b_ends b') ->
+    calc_payouts wrap256 p b prevs = calc_payouts wrap256 p b' prevs.
+Proof. exact payout_order_independent. Qed.
+Print Assumptions C14_payout_order_independent.
+
+(** total paid <= block reward <= capped block reward of the round (< 2^64).
+    The first inequality is what is true: every share is rounded down twice, so
+    the total may be smaller than the block reward, never larger. *)
+Theorem C14_sum_le_block_reward :
+  forall p b prevs m, params_okb p = true -> block_okb b = true -> chain_okb prevs = true ->
+    calc_payouts wrap256 p b prevs = Ok m ->
+    exists s d br, score_from_endorsements wrap256 p (b_ends b) = Ok s /\ calc_difficulty wrap256 p prevs = Ok d /\
+      block_reward wrap256 p (b_height b) s d = Ok br /\
+      total m <= br /\ br <= spec_cap p (spec_round p (b_height b)).
+Proof. exact sum_le_block_reward. Qed.
+Print Assumptions C14_sum_le_block_reward.
+
+Theorem C14_block_reward_le_cap :
+  forall p h s d br, params_okb p = true -> 0 <= h < 2 ^ 31 -> 0 <= s < 2 ^ 128 -> 0 <= d ->
+    block_reward wrap256 p h s d = Ok br ->
+    0 <= br <= spec_cap p (spec_round p h) /\ spec_cap p (spec_round p h) < 2 ^ 64.
+Proof. exact block_reward_le_cap. Qed.
+Print Assumptions C14_block_reward_le_cap.
 
 (** endorsements whose block of proof is not on the best VBK chain change nothing
     (any wrap function, any parameter set, any chain) *)
@@ -18,3 +96,8 @@ Theorem C14_no_endorsement_no_pay :
     get_pop_payout w p chain = Ok m -> m = [].
 Proof. exact get_pop_payout_none. Qed.
 Print Assumptions C14_no_endorsement_no_pay.
+
+(** the side conditions hold for the library's default parameters (regenerated from the source) *)
+Theorem C14_default_params_ok : params_okb default_params = true.
+Proof. exact default_params_ok. Qed.
+Print Assumptions C14_default_params_ok.
